@@ -101,6 +101,11 @@ type Spec struct {
 	// ImportAlias[pkg] is the alias under which user files import package pkg
 	// ("" = none).
 	ImportAlias map[int]string `json:"importalias,omitempty"`
+	// Note describes how the program was derived (mutation, matrix cell).
+	Note string `json:"note,omitempty"`
+	// JointSets renders the set variables of each package in one multi-name
+	// var spec: var A, B = wire.NewSet(...), wire.NewSet(...).
+	JointSets bool `json:"jointsets,omitempty"`
 	// Extra is free-form source appended to the root package (C14/C15 use it).
 	Extra string `json:"extra,omitempty"`
 	// name is the program's directory below progs/, set when rendering.
